@@ -29,6 +29,8 @@ pub mod prelude;
 pub mod statics;
 mod translate_bytecode;
 pub mod vm;
+#[cfg(feature = "verif")]
+pub mod verif;
 
 use crate::lsp_helper::{declaration_location, extract_primary_from_diagnostic};
 use crate::statics::StaticsContext;
